@@ -19,14 +19,15 @@ R(n, d) == Norm(n, d)
 RI(n) == <<n, 1>>
 RZero == <<0, 1>>
 ROne == <<1, 1>>
-RAdd(a, b) == Norm(a[1] * b[2] + b[1] * a[2], a[2] * b[2])
+RAdd(a, b) == LET g == Gcd(a[2], b[2]) IN Norm(a[1] * (b[2] \div g) + b[1] * (a[2] \div g), (a[2] \div g) * b[2])
 RNeg(a) == <<-a[1], a[2]>>
 RSub(a, b) == RAdd(a, RNeg(b))
-RMul(a, b) == Norm(a[1] * b[1], a[2] * b[2])
+RMul(a, b) == LET g1 == Gcd(Abs(a[1]), b[2]) g2 == Gcd(Abs(b[1]), a[2]) IN
+    IF a[1] = 0 \/ b[1] = 0 THEN <<0, 1>> ELSE Norm((a[1] \div g1) * (b[1] \div g2), (a[2] \div g2) * (b[2] \div g1))
 RInv(a) == Norm(a[2], a[1])
 RDiv(a, b) == RMul(a, RInv(b))
-RLt(a, b) == a[1] * b[2] < b[1] * a[2]
-RLe(a, b) == a[1] * b[2] <= b[1] * a[2]
+RLt(a, b) == LET g == Gcd(a[2], b[2]) IN a[1] * (b[2] \div g) < b[1] * (a[2] \div g)
+RLe(a, b) == LET g == Gcd(a[2], b[2]) IN a[1] * (b[2] \div g) <= b[1] * (a[2] \div g)
 RMax(a, b) == IF RLt(a, b) THEN b ELSE a
 RMin(a, b) == IF RLt(a, b) THEN a ELSE b
 RAbs(a) == <<Abs(a[1]), a[2]>>
